@@ -190,6 +190,7 @@ func (s *Spy) Unwrap(st []*age.Stanza) ([]byte, error) {
 type Unknown struct {
 	Type string
 	N    int
+	Args []string // arguments of every stanza (default: one argument "arg<i>")
 }
 
 func (u *Unknown) Wrap(fileKey []byte) ([]*age.Stanza, error) {
@@ -197,7 +198,11 @@ func (u *Unknown) Wrap(fileKey []byte) ([]*age.Stanza, error) {
 	for i := 0; i < u.N; i++ {
 		h := sha256.Sum256(append([]byte(fmt.Sprintf("unknown-%s-%d", u.Type, i)), fileKey...))
 		body := append(append([]byte{}, h[:]...), h[:]...)
-		out = append(out, &age.Stanza{Type: u.Type, Args: []string{fmt.Sprintf("arg%d", i)}, Body: body[:20+i*28]})
+		args := []string{fmt.Sprintf("arg%d", i)}
+		if u.Args != nil {
+			args = append([]string{}, u.Args...)
+		}
+		out = append(out, &age.Stanza{Type: u.Type, Args: args, Body: body[:20+i*28]})
 	}
 	return out, nil
 }
